@@ -10,6 +10,7 @@ import (
 	"regexp"
 	"runtime"
 	"runtime/debug"
+	"runtime/pprof"
 	"sort"
 	"strings"
 	"sync"
@@ -85,6 +86,7 @@ type Options struct {
 	Fallbacks []string
 	FallbackMs int
 	RLimit int
+	Params string
 }
 
 func loadProgram(opt *Options) (*ssa.Program, []*ssa.Package, error) {
@@ -205,9 +207,33 @@ func (it *Interp) runPkgInit(caller *frame, f *ssa.Function) {
 
 type solverCtx struct{}
 
-func runUnit(sh *Shared, fn *ssa.Function, opt *Options) (res UnitResult) {
+type unitInst struct {
+	fn     *ssa.Function
+	params map[string]int
+}
+
+func (u unitInst) name() string {
+	n := u.fn.Name()
+	var ks []string
+	for k := range u.params {
+		ks = append(ks, k)
+	}
+	sort.Strings(ks)
+	for i, k := range ks {
+		if i == 0 {
+			n += "@"
+		} else {
+			n += ","
+		}
+		n += fmt.Sprintf("%s=%d", k, u.params[k])
+	}
+	return n
+}
+
+func runUnit(sh *Shared, ui unitInst, opt *Options) (res UnitResult) {
+	fn := ui.fn
 	t0 := time.Now()
-	res.Unit = fn.Name()
+	res.Unit = ui.name()
 	tt := cloneTable(sh.baseTT)
 	solver, err := NewSolver(tt, opt.Solver, opt.QTimeout)
 	if err == nil && opt.RLimit > 0 && strings.HasPrefix(opt.Solver, "z3") {
@@ -226,6 +252,7 @@ func runUnit(sh *Shared, fn *ssa.Function, opt *Options) (res UnitResult) {
 		ex.Deadline = t0.Add(time.Duration(opt.Timeout) * time.Second)
 	}
 	it := newInterp(sh, tt, ex, opt)
+	it.params = ui.params
 	defer func() {
 		if r := recover(); r != nil {
 			res.Internal = fmt.Sprintf("%v\n%s", r, debug.Stack())
@@ -358,11 +385,19 @@ func main() {
 	fs.StringVar(&opt.Out, "out", "", "")
 	fs.BoolVar(&opt.Verbose, "v", false, "")
 	fs.IntVar(&opt.MaxDepth, "maxdepth", 400, "")
+	fs.StringVar(&opt.Params, "params", "", "unit-regexp:name=lo..hi[;...] instantiates matching units once per value")
 	fs.IntVar(&opt.RLimit, "rlimit", 0, "z3 resource limit per query (deterministic unknowns)")
 	var fallbacks string
 	fs.StringVar(&fallbacks, "fallback", "z3,cvc5-int", "solvers tried when the primary answers unknown")
 	fs.IntVar(&opt.FallbackMs, "fbtimeout", 60000, "fallback per-query ms")
+	var cpuprof string
+	fs.StringVar(&cpuprof, "cpuprofile", "", "")
 	fs.Parse(os.Args[2:])
+	if cpuprof != "" {
+		f, _ := os.Create(cpuprof)
+		pprof.StartCPUProfile(f)
+		defer pprof.StopCPUProfile()
+	}
 	if fallbacks != "" {
 		opt.Fallbacks = strings.Split(fallbacks, ",")
 	}
@@ -408,7 +443,11 @@ func main() {
 		}
 	}
 	sort.Slice(units, func(i, j int) bool { return units[i].Name() < units[j].Name() })
-	results := make([]UnitResult, len(units))
+	var insts []unitInst
+	for _, u := range units {
+		insts = append(insts, expandParams(u, opt.Params)...)
+	}
+	results := make([]UnitResult, len(insts))
 	var wg sync.WaitGroup
 	ch := make(chan int)
 	var mu sync.Mutex
@@ -417,7 +456,7 @@ func main() {
 		go func() {
 			defer wg.Done()
 			for i := range ch {
-				r := runUnit(sh, units[i], opt)
+				r := runUnit(sh, insts[i], opt)
 				results[i] = r
 				if opt.Verbose {
 					mu.Lock()
@@ -427,7 +466,7 @@ func main() {
 			}
 		}()
 	}
-	for i := range units {
+	for i := range insts {
 		ch <- i
 	}
 	close(ch)
@@ -458,6 +497,37 @@ func engineSite() string {
 		}
 	}
 	return strings.Join(out, " < ")
+}
+
+// expandParams: spec "regexp:name=lo..hi;regexp2:name=lo..hi"
+func expandParams(fn *ssa.Function, spec string) []unitInst {
+	if spec != "" {
+		for _, part := range strings.Split(spec, ";") {
+			i := strings.LastIndex(part, ":")
+			if i < 0 {
+				continue
+			}
+			re := regexp.MustCompile("^(" + part[:i] + ")$")
+			if !re.MatchString(fn.Name()) {
+				continue
+			}
+			var name string
+			var lo, hi int
+			step := 1
+			kv := strings.SplitN(part[i+1:], "=", 2)
+			name = kv[0]
+			if n, _ := fmt.Sscanf(kv[1], "%d..%d/%d", &lo, &hi, &step); n < 3 {
+				step = 1
+				fmt.Sscanf(kv[1], "%d..%d", &lo, &hi)
+			}
+			var out []unitInst
+			for v := lo; v <= hi; v += step {
+				out = append(out, unitInst{fn: fn, params: map[string]int{name: v}})
+			}
+			return out
+		}
+	}
+	return []unitInst{{fn: fn}}
 }
 
 func firstLine(s string) string {
